@@ -387,6 +387,8 @@ def _valid_text(vkind, out, head=False):
         i = out.find("\r\n")
         if i < 0 or not (out[0:2].isdigit() and out[2:3] == " "):
             return "no Gemini status line"
+        if "\n" in out[:i] or "\r" in out[:i]:
+            return "line break inside the status line"
         if out[0] != "2" and len(out) != i + 2:
             return "body after a non-success status"
         return None
@@ -394,13 +396,16 @@ def _valid_text(vkind, out, head=False):
         i = out.find("\r\n")
         if i < 0 or not (out[0:1] in ("2", "3", "4", "5") and out[1:2] == " "):
             return "no Spartan status line"
+        if "\n" in out[:i] or "\r" in out[:i]:
+            return "line break inside the status line"
         if out[0] != "2" and len(out) != i + 2:
             return "body after a non-success status"
         return None
     return "unknown protocol"
 
 
-E2E_PREFIXES = ["/", "/d/", "/a", "/m|", "/x.zip/", "/1/", "/../", "URL:", "/h.html", "/t.tal", "/%E9", "/\udce9"]
+E2E_PREFIXES = ["/", "/d/", "/a", "/m|", "/x.zip/", "/1/", "/../", "URL:", "/h.html", "/t.tal", "/%E9", "/\udce9",
+                "/no%0Asuch", "/q%0D%0A2"]  # percent-encoded line breaks: decoded text that is echoed must not break the status / header line
 
 
 def body_e2e(kind: int, pre: int, tail: str) -> bool:
@@ -457,6 +462,61 @@ def body_e2e(kind: int, pre: int, tail: str) -> bool:
     return True
 
 
+DIGITS = [1, 18, 19, 20, 39, 4300, 4301, 5000]
+
+
+class _LenReader:
+    """rfile of a connection whose client sent nothing after the request line; read(k) behaves like a
+    buffered binary reader: k must fit a C ssize_t, otherwise OverflowError."""
+
+    def __init__(self):
+        self.asked = []
+
+    def read(self, k=-1):
+        self.asked.append(k)
+        if k > 2 ** 63 - 1:
+            raise OverflowError("cannot fit 'int' into an index-sized integer")
+        return b""
+
+    def readline(self, *a):
+        return b""
+
+
+def body_spartan_length(case: int, n: int) -> bool:
+    """Spartan request line with an arbitrary non-negative content length (symbolic integer, or a
+    run of 9s of a given number of digits): one well-formed response, nothing escapes."""
+    from harness import dirlib as dl
+    from pygopherd.protocols import spartan
+
+    cfg = hx.DictConfig(True)
+    hx.silence_logging()
+    length = str(n) if case == 0 else "9" * DIGITS[case - 1]
+    w = hx.ListWriter()
+    p = spartan.SpartanProtocol("srv.example /nonexistent " + length + chr(13) + chr(10), hx.make_server(cfg), hx.make_rh(False), _LenReader(), w, cfg)
+    if not p.canhandlerequest():
+        return True
+    from pygopherd import GopherExceptions
+    from pygopherd.handlers import HandlerMultiplexer as HM
+
+    saved = HM.getHandler
+
+    def getHandler(selector, searchrequest, protocol, config, handlerlist=None, vfs=None):
+        raise GopherExceptions.FileNotFound(selector, "no handler found", protocol)
+
+    HM.getHandler = getHandler
+    try:
+        try:
+            p.handle()
+        except Exception as e:
+            raise hx.Violation("C03:exception-escaped-handle:%s" % type(e).__name__, "spartan content length %s... (%d digits): %r" % (length[:24], len(length), e))
+    finally:
+        HM.getHandler = saved
+    hx.reach()
+    err = _valid_text("spartan", w.gettext())
+    hx.require(err is None, "C03:malformed-response:spartan", lambda: "content length %s...: %s" % (length[:24], err))
+    return True
+
+
 def obligations(tier, seed):
     obs = [
         Ob(id="C03.1-detection-never-raises", body="harness.C02:fn_shapes", kind="fn", engine="RE", twin=False, timeout=900, kwargs={"nwit": 6},
@@ -489,7 +549,7 @@ def obligations(tier, seed):
                           bounds="selector = %r + tail, |tail| <= %d (all characters)" % (pre, tl), functions=[hp + ".*"]))
     for ki in (0, 1, 4, 6, 7, 8):
         for pi in range(len(E2E_PREFIXES)):
-            if tier == "quick" and (ki + 2 * pi) % 5 != 0 and (ki, pi) not in ((4, 10), (0, 11), (7, 10)):
+            if tier == "quick" and (ki + 2 * pi) % 5 != 0 and (ki, pi) not in ((4, 10), (0, 11), (7, 10), (7, 12), (8, 12), (7, 13), (8, 13), (4, 12), (6, 13)):
                 continue
             if not E2E_PREFIXES[pi].isascii() and KINDS[ki] in ("http", "http-head", "wap", "gemini", "spartan"):
                 continue
@@ -499,6 +559,10 @@ def obligations(tier, seed):
                                % (KINDS[ki], E2E_PREFIXES[pi]),
                           bounds="selector = %r + tail, |tail| <= %d over {a . / | %% NUL \\}" % (E2E_PREFIXES[pi], 1 if tier == "quick" else 2),
                           functions=["server.GopherRequestHandler.handle", "ProtocolMultiplexer.getProtocol", "protocols.*.handle", "HandlerMultiplexer.getHandler", "handlers.*"]))
+    obs.append(Ob(id="C03.5b-spartan-content-length", body="harness.C03:body_spartan_length", sig="case: int, n: int",
+                  pre=["0 <= case <= %d" % len(DIGITS), "0 <= n <= 2 ** 70"], timeout=300,
+                  desc="Spartan request with an arbitrary content length (a symbolic integer up to 2^70, and runs of 9s of %r digits): one well-formed response; the reader stub refuses sizes beyond a C ssize_t like the real buffered reader" % (DIGITS,),
+                  bounds="0 <= n <= 2^70 (symbolic) + 8 digit counts up to 5000", functions=["protocols.spartan.SpartanProtocol.canhandlerequest/handle"]))
     for ki in (0, 1, 4, 7, 8):
         obs.append(Ob(id="C03.4-message-numbers[%s]" % KINDS[ki], body="harness.C03:body_message", sig="sidx: int, kind: int",
                       pre=["kind == %d" % ki, "0 <= sidx < %d" % len(MSG_SELS)], timeout=240,
